@@ -27,7 +27,7 @@ import (
 // interleaving of the two event streams was.
 func TestVerifC08Conc(t *testing.T) {
 	kit.Run(t, kit.Config{Property: "C08", Unit: "conc", Quick: 800, Thorough: 20000,
-		Rule: "per case: a sequential prefix of 10-30 events, then concurrently a pod-event goroutine (60-140 events as in unit estimate), a NodeMetric-event goroutine (30-70 add/update/delete events over the same 2-3 nodes) and two reader goroutines (250 Filter / estimate reads each) on one cache, -race; at quiescence the differential and the statement oracle for every node and mode; distinct = (per-node final report kind, #assigned, #estimated, #reflected, nodes, pods); non-trivial = at quiescence some node has a complete report and at least one assigned pod",
+		Rule: "per case: a sequential prefix of 10-30 events, then concurrently one or (50%) two pod-event goroutines over disjoint pod slots (60-140 events in total, as in unit estimate; 1-4 nodes, 4-12 slots), a NodeMetric-event goroutine (30-70 add/update/delete events over the same 2-3 nodes) and two reader goroutines (250 Filter / estimate reads each) on one cache, -race; at quiescence the differential and the statement oracle for every node and mode; distinct = (per-node final report kind, #assigned, #estimated, #reflected, nodes, pods); non-trivial = at quiescence some node has a complete report and at least one assigned pod",
 	}, func(c *kit.Case) {
 		r := c.R
 		or := r.Fork()
@@ -35,7 +35,10 @@ func TestVerifC08Conc(t *testing.T) {
 		c08GenFilterArgs(r, args, useR3)
 		// expiry in Filter reads the wall clock; it is irrelevant here (decisions are not verdicts)
 		env := c08NewEnv(c, args, useR3, c08Base)
-		m := c08NewModel(env, r.Range(2, 3), r.Range(4, 8))
+		m := c08NewModel(env, kit.Pick(r, []int{2, 2, 3, 3, 3, 1, 4}), kit.Pick(r, []int{4, 5, 6, 7, 8, 4, 6, 8, 10, 12}))
+		if r.Pct(35) {
+			m.shareNames()
+		}
 		m.labelLost = true
 		modes := c08AllModes(env)
 		c.Op("args: %s", env.argsString())
@@ -65,7 +68,8 @@ func TestVerifC08Conc(t *testing.T) {
 			incObjs[i] = p.inf
 		}
 
-		rA, rC, rB1, rB2 := r.Fork(), r.Fork(), r.Fork(), r.Fork()
+		rA, rC, rB1, rB2, rA2 := r.Fork(), r.Fork(), r.Fork(), r.Fork(), r.Fork()
+		twoPodStreams := r.Pct(50)
 		nA, nC, nB := r.Range(60, 140), r.Range(30, 70), 250
 		var wg sync.WaitGroup
 		guard := func(name string, f func()) {
@@ -80,16 +84,37 @@ func TestVerifC08Conc(t *testing.T) {
 				f()
 			}()
 		}
-		guard("pod-events", func() {
-			for i := 0; i < nA; i++ {
-				m.stepClock(rA)
-				kind := m.podEvent(c, rA, "A: ", kit.Pick(rA, m.pods))
-				c.Count("conc_ev_"+kind, 1)
-				if rA.Pct(40) {
-					runtime.Gosched()
+		// Pod events come from more than one goroutine in the real scheduler (pod informer, scheduling
+		// cycle for Reserve, binding cycles for Unreserve, the forced sync at plugin start; the cache's
+		// header states that it handles concurrent delta events). The pod slots are split between two
+		// goroutines so that every slot's history stays sequential and the shadow model determinate.
+		var podsA, podsB []*c08Pod
+		for i, p := range m.pods {
+			if i%2 == 0 || !twoPodStreams {
+				podsA = append(podsA, p)
+			} else {
+				podsB = append(podsB, p)
+			}
+		}
+		podStream := func(tag string, rr *kit.Rand, pods []*c08Pod, n int) func() {
+			return func() {
+				for i := 0; i < n; i++ {
+					m.stepClock(rr)
+					kind := m.podEvent(c, rr, tag, kit.Pick(rr, pods))
+					c.Count("conc_ev_"+kind, 1)
+					if rr.Pct(40) {
+						runtime.Gosched()
+					}
 				}
 			}
-		})
+		}
+		if twoPodStreams {
+			c.Count("conc_cases_two_pod_streams", 1)
+			guard("pod-events", podStream("A: ", rA, podsA, nA/2))
+			guard("pod-events-2", podStream("A2: ", rA2, podsB, nA-nA/2))
+		} else {
+			guard("pod-events", podStream("A: ", rA, podsA, nA))
+		}
 		guard("metric-events", func() {
 			for i := 0; i < nC; i++ {
 				kind := m.metricEvent(c, rC, "C: ", kit.Pick(rC, m.nodes), false)
